@@ -468,3 +468,140 @@ pub fn failure_shapes(rng: &mut Rng) -> Vec<Shape> {
     v.push(Shape { name: "only-data", prog: Program { lines: vec![Line::SecData, Line::Label("d".into()), Line::Data(Data::Word(vec![1]))] } });
     v
 }
+
+/// Loop-carried stack slots (C01, C12): one framed function with two or three nested counting loops;
+/// slots are given known values (constants, the entry values of saved registers, sp-relative
+/// addresses) before and inside the loops, are loaded at loop heads and in bodies, and are overwritten
+/// deep inside the nest, behind conditional jumps back to an outer head. Every claim about a slot at a
+/// loop head has to be retracted across the right back edge.
+pub fn slot_loop_family(rng: &mut Rng) -> Shape {
+    let mut p = Program::default();
+    let k0 = rng.range(0, 4) as i32;
+    p.label("main");
+    p.push(Ins::li(A0, k0));
+    p.push(Ins::li(11, rng.range(0, 5) as i32));
+    p.push(Ins::li(12, rng.range(0, 3) as i32));
+    p.push(Ins::call("walk"));
+    p.push(Ins::mv(A0, A0));
+    exit(&mut p);
+    p.label("walk");
+    p.push(Ins::addi(SP, SP, -32));
+    p.push(Ins::sw(8, 28, SP));
+    p.push(Ins::sw(9, 24, SP));
+    let slots = [0, 4, 8, 12, 16];
+    let vals = [5u8, 6, 7, 28]; // t0 t1 t2 t3
+    let counters = [29u8, 30, 31]; // t4 t5 t6
+    let mut label_n = 0;
+    // one statement of the family
+    fn stmt(p: &mut Program, rng: &mut Rng, slots: &[i32], vals: &[Reg]) {
+        let s = slots[rng.below(slots.len())];
+        let v = vals[rng.below(vals.len())];
+        match rng.below(9) {
+            0 | 1 => p.push(Ins::lw(v, s, SP)),
+            2 => {
+                p.push(Ins::li(v, rng.range(-9, 9) as i32));
+                p.push(Ins::sw(v, s, SP));
+            }
+            3 => p.push(Ins::sw(*rng.pick(&[8u8, 9]), s, SP)),
+            4 => p.push(Ins::lw(*rng.pick(&[8u8, 9]), s, SP)),
+            5 => p.push(Ins::addi(*rng.pick(&[8u8, 9]), *rng.pick(&[8u8, 9]), 1)),
+            6 => {
+                p.push(Ins::addi(v, SP, s));
+                p.push(Ins::sw(v, slots[rng.below(slots.len())], SP));
+            }
+            7 => p.push(Ins::sw(v, s, SP)),
+            _ => p.push(Ins::Store { w: *rng.pick(&[StoreW::B, StoreW::H]), rs2: v, off: s + 2 * rng.below(2) as i32, base: SP }),
+        }
+    }
+    for _ in 0..1 + rng.below(4) {
+        stmt(&mut p, rng, &slots, &vals);
+    }
+    if rng.chance(0.5) {
+        // backbone: a slot with a known value is loaded at the head of an outer loop and overwritten
+        // in an inner loop *behind* the conditional jump back to the outer head, so that the
+        // retraction of the fact has to travel over two back edges; everything else touches other slots
+        let hot = slots[rng.below(slots.len())];
+        let others: Vec<i32> = slots.iter().copied().filter(|x| *x != hot).collect();
+        match rng.below(3) {
+            0 => p.push(Ins::sw(*rng.pick(&[8u8, 9]), hot, SP)),
+            1 => {
+                p.push(Ins::li(5, rng.range(-9, 9) as i32));
+                p.push(Ins::sw(5, hot, SP));
+            }
+            _ => {
+                p.push(Ins::addi(5, SP, *rng.pick(&[0, 4, 8])));
+                p.push(Ins::sw(5, hot, SP));
+            }
+        }
+        let n_outer = 1 + rng.below(2);
+        let mut heads: Vec<String> = Vec::new();
+        for d in 0..n_outer {
+            let h = format!("outer_{d}");
+            p.label(&h);
+            heads.push(h);
+            for _ in 0..rng.below(2) {
+                stmt(&mut p, rng, &others, &vals);
+            }
+        }
+        let dest = *rng.pick(&[8u8, 9, 6, 7]);
+        p.push(Ins::lw(dest, hot, SP));
+        for _ in 0..rng.below(2) {
+            stmt(&mut p, rng, &others, &vals);
+        }
+        p.label("inner");
+        p.push(Ins::addi(11, 11, -1));
+        for _ in 0..rng.below(2) {
+            stmt(&mut p, rng, &others, &vals);
+        }
+        p.push(Ins::Branch { c: *rng.pick(&[Cond::Eq, Cond::Lt]), rs1: 11, rs2: *rng.pick(&[12u8, A0]), label: heads[rng.below(heads.len())].clone() });
+        let src = *rng.pick(&[11u8, 12, 28, 9]);
+        p.push(Ins::sw(src, hot, SP));
+        for _ in 0..rng.below(2) {
+            stmt(&mut p, rng, &others, &vals);
+        }
+        p.push(Ins::Branch { c: Cond::Lt, rs1: ZERO, rs2: 11, label: "inner".into() });
+        if rng.chance(0.5) {
+            p.push(Ins::lw(*rng.pick(&[8u8, 9, 6]), hot, SP));
+        }
+        p.push(Ins::lw(9, 24, SP));
+        p.push(Ins::lw(8, 28, SP));
+        p.push(Ins::addi(SP, SP, 32));
+        p.push(Ins::ret());
+        return Shape { name: "loop-carried-slots-backbone", prog: p };
+    }
+    let depth = 2 + rng.below(2);
+    let mut heads: Vec<String> = Vec::new();
+    for d in 0..depth {
+        label_n += 1;
+        let head = format!("head_{label_n}");
+        p.push(Ins::li(counters[d], 1 + rng.below(3) as i32));
+        p.label(&head);
+        heads.push(head);
+        for _ in 0..rng.below(4) {
+            stmt(&mut p, rng, &slots, &vals);
+        }
+    }
+    // innermost body: statements and conditional jumps back to outer heads
+    for _ in 0..1 + rng.below(5) {
+        if rng.chance(0.3) {
+            let target = heads[rng.below(heads.len())].clone();
+            // (guarded by a value that goes down, so that executions end)
+            p.push(Ins::addi(A0, A0, -1));
+            p.push(Ins::Branch { c: Cond::Lt, rs1: ZERO, rs2: A0, label: target });
+        } else {
+            stmt(&mut p, rng, &slots, &vals);
+        }
+    }
+    for d in (0..depth).rev() {
+        p.push(Ins::addi(counters[d], counters[d], -1));
+        p.push(Ins::Branch { c: Cond::Lt, rs1: ZERO, rs2: counters[d], label: heads[d].clone() });
+        for _ in 0..rng.below(3) {
+            stmt(&mut p, rng, &slots, &vals);
+        }
+    }
+    p.push(Ins::lw(9, 24, SP));
+    p.push(Ins::lw(8, 28, SP));
+    p.push(Ins::addi(SP, SP, 32));
+    p.push(Ins::ret());
+    Shape { name: "loop-carried-slots", prog: p }
+}
